@@ -33,6 +33,11 @@ type (
 		srInHead bool
 		mode     mpt.TrieMode
 		mpt      *mpt.Trie
+		// mptPending is set by AddMPTBatch and cleared by UpdateCurrentLocal:
+		// while it is set, the nodes and the reference counters shared between
+		// mpt and the copy handed out by AddMPTBatch belong to a batch that has
+		// not been accepted.
+		mptPending bool
 		verifier VerifierFunc
 		log      *zap.Logger
 
@@ -334,6 +339,14 @@ func (s *Module) GC(index uint32, store storage.Store) time.Duration {
 
 // AddMPTBatch updates using provided batch.
 func (s *Module) AddMPTBatch(index uint32, b mpt.Batch, cache *storage.MemCachedStore) (*mpt.Trie, *state.MPTRoot, error) {
+	if s.mptPending {
+		// The result of the previous call was dropped (UpdateCurrentLocal was
+		// not called for it), but it was computed on a copy sharing in-memory
+		// nodes and the reference counters cache with s.mpt. Forget them and
+		// continue from the last accepted root as it is stored.
+		s.mpt = s.newTrieFromLocalRoot()
+	}
+	s.mptPending = true
 	mpt := *s.mpt
 	mpt.Store = cache
 	if _, err := mpt.PutBatch(b); err != nil {
@@ -348,9 +361,20 @@ func (s *Module) AddMPTBatch(index uint32, b mpt.Batch, cache *storage.MemCached
 	return &mpt, sr, nil
 }
 
+// newTrieFromLocalRoot returns a trie for the current local state root with
+// nothing cached in memory.
+func (s *Module) newTrieFromLocalRoot() *mpt.Trie {
+	var root mpt.Node
+	if r := s.CurrentLocalStateRoot(); !r.Equals(util.Uint256{}) {
+		root = mpt.NewHashNode(r)
+	}
+	return mpt.NewTrie(root, s.mode, s.Store)
+}
+
 // UpdateCurrentLocal updates local caches using provided state root.
 func (s *Module) UpdateCurrentLocal(mpt *mpt.Trie, sr *state.MPTRoot) {
 	s.mpt = mpt
+	s.mptPending = false
 	s.currentLocal.Store(sr.Root)
 	s.localHeight.Store(sr.Index)
 	if s.srInHead {
